@@ -60,7 +60,7 @@ func c04Gen(tp *Tapes) *c04Spec {
 	g := tp.Gen
 	sp := &c04Spec{Prog: GenProgramOpt(g, 6+g.DrawD(22, 50), true)}
 	sp.Loader = []string{"fs", "virt", "http"}[g.Draw(3)]
-	sp.Via = []string{"FromFile", "FromCache", "FromString"}[g.Draw(3)]
+	sp.Via = []string{"FromFile", "FromCache", "FromString", "FromBytes"}[g.Draw(4)]
 	np := 2 + g.Draw(3)
 	for i := 0; i < np; i++ {
 		sp.Pool = append(sp.Pool, GenCtxDesc(g))
@@ -116,6 +116,8 @@ func c04Compile(sp *c04Spec, disk []*DiskSpec) (*c04Side, string) {
 		s.tpl, err = s.set.FromCache(sp.Prog.Main)
 	case "FromString":
 		s.tpl, err = s.set.FromString(sp.Prog.Files[sp.Prog.Main])
+	case "FromBytes":
+		s.tpl, err = s.set.FromBytes([]byte(sp.Prog.Files[sp.Prog.Main]))
 	default:
 		s.tpl, err = s.set.FromFile(sp.Prog.Main)
 	}
